@@ -19,7 +19,11 @@ RULE = ("part 1 (quoting round trip): scenario = one list of 1..8 non-empty word
         "lines, last line with or without newline), an environment part and an argv part; the destinations must equal the "
         "model's fold over file+env+argv in this order (a later value on argv overrides a scalar from the file/environment "
         "without a cardinality error, mandatory arguments may come from any source), and, where no scalar is repeated, the "
-        "run with everything on argv. non-trivial = list with a special character / split over >= 2 sources; distinct = "
+        "run with everything on argv; in half of the cases additionally the run in which the command-line part is handed over as "
+        "ONE quoted string through evalArgumentString( handler, string, program name) (program name prog, ./prog or with a "
+        "path - it selects the argument file and the variable). Variants: value list of a multi-value argument continuing in "
+        "the next source, explicit --arg-file argument, nested argument files, name of the environment variable given with "
+        "checkEnvVarArgs( name) while the derived variable holds an unknown argument. non-trivial = list with a special character / split over >= 2 sources; distinct = "
         "hash of the joined string resp. (configuration, file, environment, argv).")
 ASSUMPTIONS = ["escaping strategies are the quoting forms the ArgString2Array documentation names (quotes removed, text within quotes one value) plus backslash escapes",
                "python model lib/argh.py for part 2"]
@@ -261,6 +265,13 @@ def gen_case(seed, idx, tier):
     if nested is not None:
         cfg.files = list(cfg.files) + [("inner/args.txt", nested)]
     cfg.env = [("PROG", etext)] if ew else []
+    if ew and rng.random() < 0.3:
+        # the name of the variable given explicitly (checkEnvVarArgs( name)) instead of derived from the program file name;
+        # PROG then holds something that must not be read
+        cfg.env_name = rng.choice(["MY_TOOL_ARGS", "prog_args", "X"])
+        cfg.env = [(cfg.env_name, etext), ("PROG", "--no-such-argument-zz")]
+        if rng.random() < 0.5:
+            cfg.flags &= ~HF["envVarArgs"]
     # expected by the model: fold over file + env + argv, cardinality only for argv uses
     allu = (epart + fpart + apart) if explicit else (fpart + epart + apart)
     try:
@@ -273,6 +284,14 @@ def gen_case(seed, idx, tier):
     c.meta.update(multi=multi[2] if multi else None, explicit=explicit, nested=nested is not None)
     c.meta.update(cfg=cfg, exp=exp, parts=(fpart, epart, apart), override=override, last_nl=last_nl, nsrc=sum(1 for p in (fpart, epart, apart) if p))
     c.add("c07", lambda sid: argh.scenario_text(sid, "sources", cfg, aw))
+    c.meta["kinds"] = ["sources"]
+    # the command-line part handed over as ONE string (evalArgumentString): same sources, same result; the program name goes
+    # with it (it selects the argument file and the environment variable)
+    if not any(w == "" for w in aw) and rng.random() < 0.5:
+        astr = " ".join(quote(w) for w in aw)
+        pname = rng.choice(["prog", "prog", "/usr/local/bin/prog", "./prog"])
+        c.add("c07", lambda sid: argh.scenario_text(sid, "sources-string", cfg, aw, as_string=(astr, pname)))
+        c.meta["kinds"].append("sources-string")
     if not override:
         # differential: everything on argv
         cfg2 = cfg
@@ -286,6 +305,7 @@ def gen_case(seed, idx, tier):
             cfg.files, cfg.env = files, env
             return t
         c.add("c07", text2)
+        c.meta["kinds"].append("all-argv")
     return c
 
 
@@ -325,12 +345,15 @@ def judge(c, results, rep):
         rep.stat("sources.explicit_arg_file_argument")
     if c.meta.get("nested"):
         rep.stat("sources.nested_argument_file")
+    if cfg.env_name:
+        rep.stat("sources.explicit_environment_variable_name")
     dumps = []
     for k, (sid, text) in enumerate(c.scenarios):
         r = results[sid]
         if k == 0 and c.meta["nsrc"] >= 2:
             rep.distinct(text.split("\n", 1)[1])
-        which = "sources" if k == 0 else "all-argv"
+        which = c.meta["kinds"][k]
+        rep.stat("sources.scenario_" + which.replace("-", "_"))
         if r.status != "ok":
             rep.viol("sources|%s|rejected%s" % (which, "|override" if c.meta["override"] else ""),
                      "%s: %s %s | file=%r env=%r argv part=%r" % (which, r.etype, r.ewhat, cfg.files, cfg.env, apart), [text])
@@ -347,8 +370,9 @@ def judge(c, results, rep):
         else:
             rep.stat("sources.%s_as_model" % which.replace("-", "_"))
         dumps.append(r.slots)
-    if len(dumps) == 2 and dumps[0] is not None and dumps[1] is not None and dumps[0] != dumps[1]:
-        rep.viol("sources|differs-from-all-argv", "sources %r vs argv %r" % (dumps[0], dumps[1]), [t for _s, t in c.scenarios])
+    for k in range(1, len(dumps)):
+        if dumps[0] is not None and dumps[k] is not None and dumps[0] != dumps[k]:
+            rep.viol("sources|differs-from-%s" % c.meta["kinds"][k], "sources %r vs %s %r" % (dumps[0], c.meta["kinds"][k], dumps[k]), [t for _s, t in c.scenarios])
     rep.sample("sources: file=%r env=%r argv-part=%r" % (cfg.files, cfg.env, apart))
 
 
